@@ -469,7 +469,7 @@ def _run(ctx, rng, pc, SSHConfig, ConfigParseError):
 
 META = {
     "claimed": True,
-    "level": ("Partial (fragment named below). Proved in Lean, for every config and hostname: a Host block applies exactly "
+    "level": ("Partial (Match exec and canonicalisation excluded). Proved in Lean, for every config and hostname: a Host block applies exactly "
               "when some pattern matches and no negated pattern does (host_applies_iff; glob matcher for literals, * and ?: "
               "glob_star, glob_literal); get_hostnames returns exactly the Host patterns plus the implicit '*' for every "
               "parseable config, Match blocks included, and cannot raise (getHostnames_spec); inside a block the first "
@@ -483,8 +483,14 @@ META = {
               "hostname is expanded against the looked-up name (only %h), every other option by _tokenize over the "
               "GENERATED token table against the options with the expanded HostName, None stays None, keys without "
               "documented tokens are untouched (expandVariables_get, tokenize_hostname, "
-              "percent_h_is_expanded_hostname). Match host / user / final (option- and pass-dependent) are modelled and tied by "
-              "correspondence only; Match exec and hostname canonicalisation are not modelled."),
+              "percent_h_is_expanded_hostname). For EVERY config without Match exec — Match host / user / final included — the same holds in "
+              "visiting order: the value of a key is the one of the first block that has it among the blocks that apply "
+              "when the first pass visits them, then the HostName default, then the blocks that apply when the second "
+              "(final) pass visits them; identityfile accumulates over both (lookup_first_obtained_visiting, "
+              "lookupPass_eq_applied); Match host is tested against the HostName obtained so far (else the looked-up "
+              "name), Match user against the User obtained so far (else the local user), Match final holds in the second "
+              "pass only (match_host_applies, match_user_applies, match_final_applies). Match exec and hostname "
+              "canonicalisation are not modelled."),
     "note": ("Trusted: Lean kernel + 3 standard axioms; re/shlex/str methods of CPython (the model starts from logical "
              "lines; rendering to text with random formatting exercises the real regex/shlex glue); fnmatch is modelled for "
              "literal characters, * and ? (no [] classes) and validated against fnmatch.fnmatch every run; "
